@@ -378,6 +378,9 @@ static size_t run_reference(int i2bbs, const std::string & name, int level, int 
   }
   int i2 = i2bbs, il = level, mo = mode, ist = istart;
   ier = 0;
+  // an initialisation-only call (istart=-1) runs bb() once without resetting the event counter of COMMON /genevent/;
+  // the original program does this once per run, this driver thousands of times: reset it here
+  genevent_.npfull = 0;
   genbbsub_(&i2, nm, &il, &mo, &ist, &ier, 16);
   if (istart != 1 && ier == 0) normalised[key] = std::string(nm, 16);
   return ref_script_pos();
